@@ -148,7 +148,10 @@ for loc in LOCS:
                 lambda feats=feats: gb_annot(feats, False))
 # qualifier values: empty string, flag without value (None), several values, quotes, long values that wrap
 QUALS = [{"note": ""}, {"pseudo": None}, {"note": "", "pseudo": None, "gene": "abcA"}, {"db_xref": "GI:1\nGI:2"},
-         {"note": "a very long note " * 8}, {"product": "5'-3' exonuclease"}, {"codon_start": "1", "note": "x=y; z"}]
+         {"note": "a very long note " * 8}, {"product": "5'-3' exonuclease"}, {"codon_start": "1", "note": "x=y; z"},
+         {"pseudo": None, "partial": None}, {"pseudo": None, "partial": None, "ribosomal_slippage": None},
+         {"pseudo": None, "trans_splicing": None, "gene": "abcA"}, {"gene": "abcA", "pseudo": None, "partial": None},
+         {"pseudo": None, "note": "a /b c", "partial": None}, {"note": "x /pseudo y"}]
 for qual in QUALS:
     feats = [Feature("CDS", [Location(2, 9)], dict(qual)), Feature("gene", [Location(1, 12)], {"gene": "g"})]
     for with_seq in (False, True):
